@@ -528,6 +528,16 @@ def run(rep, tier):
     rep.floor("method spellings", method_table(rep, u, consts), 14)
     rep.floor("target component searches", span_rule(rep, u), 3)
     rep.floor("portable case-fold byte pairs", cmpi_fallback(rep, us[HTTP_C_PORTABLE]), 700)
+    # "returns the trimmed value": pointer and length outputs of the lookup helpers are stored together (R-OUTDEF)
+    from rules import r_outdef
+    nout = 0
+    for f_ in u.function_list:
+        if f_.relfile() == HTTP_C and f_.has_cfg:
+            k_ = r_outdef.check(rep, f_)
+            if k_:
+                rep.functions.add(f_.name)
+            nout += k_
+    rep.floor("success returns of multi-output functions", nout, 4)
     return driver.finish(
         rep, "other",
         "HTTP smuggling checks and field lookup, structural clauses: the rule section of http_req_sec_chk over all count/method "
